@@ -44,6 +44,8 @@ FLOATS = [0.0, 1.5, -2.5, 1e-300, 1e300, 3.141592653589793, 0.1, 2.0, -0.0, 1e16
 STRS = ["a", "abc", " a ", "ünïcödé ß", "line1\nline2", '"quoted"', "{}", "null", "1", "true", "yes", "~", "1e3", "0x10",
         "2021-01-01", ": a", "- a", "#c", "a: b", "x" * 300, "\\n", "tab\tin", "'", "a#b", "[1]", "é", "0", "None", "NaN",
         "a b", "  lead", "trail  ", "%", "@id", "&a", "*a", "!tag", "|", ">", "a\r\nb", " "]
+# beyond the Basic Multilingual Plane, Unicode line/paragraph separators, NEL, BOM, control characters, combining marks
+STRS += ["\U0001F600", "a\U0001D11Eb", "x\u2028y", "x\u2029y", "x\x85y", "\ufeffbom", "bell\x07", "e\u0301", "\u200b", "\x7f"]
 MIMES = ["text/plain", "application/json;charset=utf-8", "a/b", "image/png", "x-y/z.w+v;a=b;c=d"]
 HASHES = ["00ff", "ABCDEF", "0", "deadbeef" * 8]
 DURS = ["PT3H4M1S", "P1D", "PT0S", "PT0.5S", "P1W", "PT36H", "P1DT12H", "PT1M", "P1Y2M", "P1M", "-PT1H", "PT0.000001S", "P3DT0.25S"]
@@ -158,6 +160,10 @@ def gen_model_dict(cls, rng, depth=0, p_optional=0.5):
             continue
         hint = hints.get(name, f.outer_type_)
         if not f.required and (depth > 2 or rng.random() > p_optional):
+            continue
+        if rng.random() < 0.04:
+            # an explicit None: a value for optional fields (same as omitting it), no value for mandatory ones (the model decides)
+            out[f.alias if rng.random() < 0.5 else name] = None
             continue
         try:
             v = gen_value(hint, rng, depth)
